@@ -392,17 +392,18 @@ def worker_init_inputs(cfg, tier):
     from vlib.fixtures import PParams, ProbeNode
 
     dmin, dmax = cfg["min"], cfg["max"]
+    iname = cfg.get("input_name", "node2")  # the name the connection is registered under (the documented key of init_delays)
 
     class Rcv(ProbeNode):
         def init_delays(self, rng=None, graph_state=None):
-            return {"node2": graph_state.params[self.name].a}  # the trainable delay lives in the node's params
+            return {iname: graph_state.params[self.name].a}  # the trainable delay lives in the node's params
 
     n2 = ProbeNode(name="node2", rate=20)
     n1 = Rcv(name="node1", rate=10)
-    n1.connect(n2, window=2, blocking=False, delay_dist=TrainableDist.create(cfg["created_delay"], dmin, dmax), delay=float(dmin))
+    n1.connect(n2, window=2, blocking=False, delay_dist=TrainableDist.create(cfg["created_delay"], dmin, dmax), delay=float(dmin), name=iname)
     gs0 = GraphState(params=FrozenDict({"node1": PParams(a=jnp.float32(0.01))}))
     it = jx.Interp()
-    tr = jx.Traced(lambda g_: n1.init_inputs(jax.random.PRNGKey(0), g_)["node2"], gs0)
+    tr = jx.Traced(lambda g_: n1.init_inputs(jax.random.PRNGKey(0), g_)[iname], gs0)
     flat = tr.sym_inputs(it, "p")
     lo = Fraction(float(np.float32(dmin)))
     hi = lo + Fraction(float(np.float32(float(dmax) - float(dmin))))
@@ -565,7 +566,8 @@ def run(rep):
     obs += pmap("props.c10", "worker_generated_min", ecfg, rep.tier)
     from rex.node import BaseNode
     rep.encode(BaseNode.init_inputs, BaseNode.init_delays)
-    obs += pmap("props.c10", "worker_init_inputs", [dict(min=0.0, max=0.05, created_delay=0.04), dict(min=0.0125, max=0.0625, created_delay=0.05)], rep.tier)
+    obs += pmap("props.c10", "worker_init_inputs", [dict(min=0.0, max=0.05, created_delay=0.04), dict(min=0.0125, max=0.0625, created_delay=0.05),
+                                                     dict(min=0.0, max=0.05, created_delay=0.04, input_name="obs")], rep.tier)
     if rep.tier == "thorough":
         obs += pmap("props.c10", "worker_end_to_end", [dict(c, ts_max=0.15) for c in ecfg[:1]], rep.tier)
     rep.add_all(obs)
